@@ -9,6 +9,7 @@ Import ListNotations.
 Definition key := nat.                 (* who can prove possession of the certificate's private key *)
 Definition host_key : key := 1.
 Definition plugin_key : key := 2.
+Definition system_key : key := 6.       (* a certificate authority in the machine's trust store *)
 
 Record tcfg := {
   t_own : option key;                  (* Certificates *)
@@ -25,27 +26,31 @@ Record tparams := {
   tp_host_pins_root_cas : bool;        (* ... and as RootCAs *)
   tp_plugin_requires_client : bool;    (* Serve: ClientAuth RequireAndVerifyClientCert *)
   tp_plugin_pins_client_cas : bool;    (* Serve: ClientCAs = the host's cert from the environment *)
-  tp_broker_serves_with_tls : bool     (* AcceptAndServe gives brokered servers the broker's TLS config *)
+  tp_broker_serves_with_tls : bool;    (* AcceptAndServe gives brokered servers the broker's TLS config *)
+  tp_pools_only_pinned : bool          (* the certificate pools start empty (x509.NewCertPool), not from the system roots *)
 }.
+
+(* a pool with the pinned certificates, on top of the system roots when the code starts from those *)
+Definition pool (P : tparams) (pinned : list key) : list key := if tp_pools_only_pinned P then pinned else system_key :: pinned.
 
 (* the host's config after the handshake line announced certificate [announced] (None: no certificate field) *)
 Definition host_cfg (P : tparams) (announced : option key) : option tcfg :=
   if tp_host_cfg_at_start P then
     Some {| t_own := Some host_key; t_require_client := tp_host_requires_client P;
-            t_client_cas := match announced with Some k => if tp_host_pins_client_cas P then [k] else [] | None => [] end;
-            t_root_cas := match announced with Some k => if tp_host_pins_root_cas P then [k] else [] | None => [] end |}
+            t_client_cas := pool P (match announced with Some k => if tp_host_pins_client_cas P then [k] else [] | None => [] end);
+            t_root_cas := pool P (match announced with Some k => if tp_host_pins_root_cas P then [k] else [] | None => [] end) |}
   else
     match announced with
     | Some k => Some {| t_own := Some host_key; t_require_client := tp_host_requires_client P;
-                        t_client_cas := if tp_host_pins_client_cas P then [k] else [];
-                        t_root_cas := if tp_host_pins_root_cas P then [k] else [] |}
+                        t_client_cas := pool P (if tp_host_pins_client_cas P then [k] else []);
+                        t_root_cas := pool P (if tp_host_pins_root_cas P then [k] else []) |}
     | None => None
     end.
 
 (* the plugin's config when PLUGIN_CLIENT_CERT carried the host's certificate *)
 Definition plugin_cfg (P : tparams) : tcfg :=
   {| t_own := Some plugin_key; t_require_client := tp_plugin_requires_client P;
-     t_client_cas := if tp_plugin_pins_client_cas P then [host_key] else []; t_root_cas := [host_key] |}.
+     t_client_cas := pool P (if tp_plugin_pins_client_cas P then [host_key] else []); t_root_cas := [host_key] |}.
 
 Inductive path :=
 | MainNetRPC | MainGRPC                 (* the plugin's main listener *)
@@ -88,10 +93,11 @@ Definition client_accepts (c : option tcfg) (s : option tcfg) : bool :=
   | _, _ => false
   end.
 
-Definition intruders : list peer := [Plaintext; TLSNoCert; TLSCert 7; TLSCert 8].
+Definition intruders : list peer := [Plaintext; TLSNoCert; TLSCert 7; TLSCert 8; TLSCert system_key].
 
 (* ---- glue for the family "mtls": input (path peer_code announced) ; obs (answered)
-   peer codes: 0 plaintext, 1 TLS no cert, 2 fresh cert, 3 other key same name, 9 the legitimate peer *)
+   peer codes: 0 plaintext, 1 TLS no cert, 2 fresh cert, 3 other key same name, 4 a certificate issued by an authority of
+   the machine's trust store, 9 the legitimate peer *)
 Definition path_of_Z (z : Z) : path :=
   match z with 0 => MainNetRPC | 1 => MainGRPC | 2 => PluginBrokered | _ => HostBrokered end%Z.
 Definition check_mtls (P : tparams) (inp obs : V) : verdict :=
@@ -102,7 +108,7 @@ Definition check_mtls (P : tparams) (inp obs : V) : verdict :=
           let pth := path_of_Z p in
           let announced := if ann then Some plugin_key else None in
           let legit_key := match pth with HostBrokered => plugin_key | _ => host_key end in
-          let pr := (if Z.eqb x 0 then Plaintext else if Z.eqb x 1 then TLSNoCert else if Z.eqb x 2 then TLSCert 7 else if Z.eqb x 3 then TLSCert 8 else TLSCert legit_key) in
+          let pr := (if Z.eqb x 0 then Plaintext else if Z.eqb x 1 then TLSNoCert else if Z.eqb x 2 then TLSCert 7 else if Z.eqb x 3 then TLSCert 8 else if Z.eqb x 4 then TLSCert system_key else TLSCert legit_key) in
           let m := if Z.eqb x 9
                    then server_accepts (server_cfg P announced pth) pr && client_accepts (client_cfg P announced pth) (server_cfg P announced pth)
                    else server_accepts (server_cfg P announced pth) pr in
